@@ -157,9 +157,12 @@ let handle (i : string list) (o : string list) =
           (* what the sender put on the wire, against the sender-side functions of tools/mod.rs *)
           let want_sct = if p.se_sct then system_time_to_ntp (Z.add p.se_t0 p.se_xf) else None in
           let shape = session_events p wsct es = plain evs && wsct = want_sct
-                      && parse_u32 es = Some (se_expires_ntp p) in
+                      && (match parse_u32 es with
+                          | Some v -> v = se_expires_ntp p
+                          (* an Expires beyond the 32-bit NTP seconds is written in full by the sender and not representable *)
+                          | None -> N.leb (n_of_hex "100000000") (se_expires_ntp p)) in
           ((if shape then None else Some "session-shape"),
-           (if session_ok p && not (p_C19_session p obs) then Some "P_C19_session" else None))
+           (if (session_ok p || session_ok_unchecked p) && not (p_C19_session p obs) then Some "P_C19_session" else None))
         | _ -> (Some "session-without-fdt", None) in
       let (ds, ps) =
         if single then begin
